@@ -555,9 +555,29 @@ fn ctor_parse_with_server_name(id: &str, server: &str, t: &mut Tally) -> Viol {
                 format!("id {} server {} -> {}", show(id), show(server), show(u))
             });
             accepted_by_parser("UserId::parse_with_server_name", Kind::User, u, UserId::parse(u).is_ok(), &mut out);
+            // a bare localpart is completed with the given server name: the result must be made of
+            // exactly these two components (a `:` or NUL in the localpart cannot be accepted)
+            if !id.starts_with('@') {
+                need(
+                    &mut out,
+                    !id.contains(':') && !id.contains('\0'),
+                    "constructor/UserId::parse_with_server_name/accepted-invalid-localpart",
+                    || format!("localpart {} server {} -> {}", show(id), show(server), show(u)),
+                );
+                if let Ok(parsed) = UserId::parse(u) {
+                    need(
+                        &mut out,
+                        parsed.localpart() == id && parsed.server_name().as_str() == server,
+                        "constructor/UserId::parse_with_server_name/components",
+                        || format!("localpart {} server {} -> localpart {} server {}", show(id), show(server), show(parsed.localpart()), show(parsed.server_name().as_str())),
+                    );
+                }
+            }
         }
         Err(e) => match ids::reference(Kind::User, &composed) {
-            Ref::Accept => {
+            // (only when the localpart itself is one: `a:x` completed with `8448` composes to a valid
+            // user ID string of a different user)
+            Ref::Accept if id.starts_with('@') || !(id.contains(':') || id.contains('\0')) => {
                 t.nontrivial += 1;
                 out.push((
                     "constructor/UserId::parse_with_server_name/rejected-valid".into(),
@@ -690,9 +710,13 @@ fn ctor_cases() -> Vec<Value> {
         "b".repeat(250),
         format!("{}:8448", "b".repeat(250)),
         "b".repeat(255),
+        // all-digit host names: a localpart ending in `:host` completed with them composes to
+        // `@lp:host:digits`, a valid ID of somebody else
+        "8448".into(),
+        "1".into(),
     ];
     let mut idparts: Vec<String> = ids::LOCALPARTS.iter().map(|s| s.to_string()).collect();
-    idparts.extend(["@a:x", "@bad", "@a:", "@:x", "a@b", "é@"].map(String::from));
+    idparts.extend(["@a:x", "@bad", "@a:", "@:x", "a@b", "é@", "a:x", "a:example.org", "a:[::1]", "a:1.2.3.4", ":x", "a:"].map(String::from));
     for l in (0..=4).chain(236..=262).chain(509..=513) {
         idparts.push("a".repeat(l));
         idparts.push(format!("@{}:x", "a".repeat(l)));
